@@ -473,11 +473,31 @@ var inspSrc = inspectionSrc()
 
 // inspect evaluates the fixed inspection program and returns one line per
 // tracked item.
+// inspHostCall: the inspection begins with a call the HOST makes (FunCall of a
+// builtin with a bad argument) and records the error text -- position prefix
+// included -- that an embedder would log.  Only compared while every
+// operation of the history so far was a Load* entry point (those restore the
+// environment's source location; the Eval* family is documented to evaluate
+// in place).
+var inspHostCall bool
+
 func inspect(w *World) ([]string, Outcome) {
 	from := len(w.Events)
 	w.Faults, w.fpHits = nil, map[int]int{}
+	var pre []string
+	if inspHostCall {
+		if lp := w.RT.Registry.Package("lisp"); lp != nil {
+			car := lp.Get(lisp.Symbol("car"))
+			o := w.Call(func() *lisp.LVal { return w.Env.FunCall(car, lisp.SExpr([]*lisp.LVal{lisp.Int(5)})) })
+			txt := o.Result()
+			if o.IsErr && o.Val != nil {
+				txt = (*lisp.ErrorVal)(o.Val).Error()
+			}
+			pre = append(pre, "host-call-error "+txt)
+		}
+	}
 	out := w.Call(func() *lisp.LVal { return w.Env.LoadString("inspect", inspSrc) })
-	var lines []string
+	lines := pre
 	for _, ev := range w.Events[from:] {
 		if ev.Tag == "insp" {
 			lines = append(lines, ev.Args)
@@ -527,7 +547,12 @@ func (historyEngine) Run(ci any, st *Stats) *Violation {
 	var allOps []ackOp
 	h := NewHash()
 	anyFault := false
+	inspHostCall = true
+	defer func() { inspHostCall = false }()
 	for i, op := range c.Ops {
+		if !strings.HasPrefix(op.Entry, "Load") {
+			inspHostCall = false
+		}
 		st.Runs++
 		pkgBefore := R.RT.Package.Name
 		ctxBefore := R.Env.Context()
